@@ -3,6 +3,7 @@ CFG = {
     "jobs": lambda tier: [
         J("scaled", "witness --only D3"),
         J("scaled", "c04", shard=6, timeout=3000),
+        J("prod", "c04-cli", script="tools/cli/c04_cli_job.py", needs_repo_bins=["mlar"], timeout=900),
     ],
     "rule": "scaled constants (CHUNK=64): 2 (quick) / 6 (thorough) generated 3-6-chunk encrypt-only archives with 2-3 interleaved files, plus the "
             "adversarial-tail archive (every chunk edge is a block edge followed by FileContent blocks of files already started); for each: one random "
@@ -21,3 +22,8 @@ CFG = {
         "the lifting from the layer's byte stream to files (block parser, repair loop) is covered by the correspondence with Repair.v, not by a theorem of this property",
     ],
 }
+
+# round-5 seeds C04-m7 / C04-m8
+CFG["rule"] += ("; c04-cli (production mlar): `mlar repair` in both modes of encrypted (and compressed+encrypted) archives of three files of 150-300 KB with ONE byte flipped in the "
+                "middle third: every member of the default-mode output is a prefix of the original file and of the member the unauthenticated mode recovers, and (without compression) "
+                "no more bytes are recovered than lie in the chunks before the failing one; c04: both modes also from a source that fails ONCE with a hard I/O error inside a chunk")
